@@ -48,6 +48,25 @@ extern "C" void harness_lexer(void) {
   } else {
     VF_ASSERT(tok.length > 0, "every token other than end-of-file makes progress");
   }
+  // in path mode a string token extends to the next unescaped blank, newline, ':' or '|' (or the end);
+  // '$' escapes the following byte, and a "$<newline>" continuation also swallows the blanks that follow it
+  if (mode == (uint8_t)Lexer::LexingMode::PathString && tok.tokenKind == Token::Kind::String) {
+    const char* p = tok.start; const char* e = buf + n;
+    while (p < e) {
+      unsigned char c = (unsigned char)*p;
+      if (c == '$') {
+        p++; if (p == e) break;
+        bool nl = *p == '\n' || *p == '\r';
+        if (*p == '\r' && p + 1 < e && p[1] == '\n') p++;      // CRLF counts as one newline
+        p++;
+        if (nl) while (p < e && blank((unsigned char)*p)) p++;
+        continue;
+      }
+      if (blank(c) || c == '\n' || c == '\r' || c == ':' || c == '|') break;
+      p++;
+    }
+    VF_ASSERT(tok.start + tok.length == p, "a path token ends exactly at the first unescaped separator (line continuations and the blanks after them belong to it)");
+  }
   // bytes 0x80-0xFF are ordinary characters: never a separator, never end of input
   if (tok.start < buf + n && (unsigned char)*tok.start >= 0x80) {
     VF_ASSERT(tok.tokenKind == Token::Kind::String || tok.tokenKind == Token::Kind::Unknown, "a high byte starts a string or an unknown token");
